@@ -120,6 +120,8 @@ var Items = []Item{
 	{ID: "swap-assign", Setup: "var a uint64 = 1\n\tvar b uint64 = 2", Core: "a, b = b, a\n\tr = a*10 + b"},
 	{ID: "loop-return", Decls: "func lr%N%() uint64 {\n\tfor i := uint64(0); i < 3; i++ {\n\t\tif i == 1 {\n\t\t\treturn i + 10\n\t\t}\n\t\tcontinue\n\t}\n\treturn 0\n}", Core: "r = lr%N%()"},
 	{ID: "early-return-with-else", Decls: "func ee%N%(x uint64) uint64 {\n\tvar y uint64\n\tif x == 0 {\n\t\treturn 5\n\t} else {\n\t\ty = 1\n\t}\n\treturn y + 1\n}", Core: "r = ee%N%(1)*10 + ee%N%(0)"},
+	{ID: "early-return-with-else-if", Decls: "func eei%N%(x uint64) uint64 {\n\tvar y uint64\n\tif x == 0 {\n\t\treturn 5\n\t} else if x == 1 {\n\t\ty = 1\n\t}\n\treturn y + 1\n}", Core: "r = eei%N%(1)*10 + eei%N%(0)"},
+	{ID: "break-with-else-if", Core: "for i := uint64(0); i < 3; i++ {\n\t\tif i == 2 {\n\t\t\tbreak\n\t\t} else if i == 1 {\n\t\t\tr += 10\n\t\t}\n\t\tr += 1\n\t}", NoCtx: true},
 	{ID: "nested-early-return", Decls: "func ne%N%(x uint64) uint64 {\n\tif x < 5 {\n\t\tif x == 0 {\n\t\t\treturn 7\n\t\t}\n\t}\n\treturn 1\n}", Core: "r = ne%N%(0)*10 + ne%N%(2)"},
 	{ID: "break-non-tail", Core: "for i := uint64(0); i < 3; i++ {\n\t\tif i == 1 {\n\t\t\tbreak\n\t\t}\n\t\tr += 1\n\t}", NoCtx: true},
 	{ID: "continue-then-code", Core: "for i := uint64(0); i < 3; i++ {\n\t\tif i == 1 {\n\t\t\tr += 10\n\t\t\tcontinue\n\t\t}\n\t\tr += 1\n\t\tcontinue\n\t}", NoCtx: true},
